@@ -125,10 +125,20 @@ Totals == << "select name from . order by sqrt(size - 50)", "select name from . 
 ChooseTotal == /\ phase = "start" /\ "reject" \in Kinds /\ kind' = "query" /\ phase' = "done"
                /\ \E i \in 1 .. Len(Totals) : argv' = <<Totals[i]>> /\ label' = "q" \o ToString(i)
                /\ expect' = "total" /\ UNCHANGED <<toks, muts>>
+(* columns that are read from the content of an entry, over a tree with entries that have none to give: a FIFO (opening it for  *)
+(* reading would wait for a writer), one that is named like an archive, a socket, a link that leads nowhere                       *)
+Specials == << "select name, line_count from .", "select name, sha1, sha256 from .", "select name, is_shebang from .", "select name, has_xattrs, caps from .",
+               "select name, mime from .", "select name, is_binary, is_text from .", "select name, contains('x') from .", "select name from . where line_count > 0",
+               "select count(*), sum(line_count), max(line_count) from .", "select name, xattr('user.a'), has_xattr('user.a') from .", "select name from . archives",
+               "select name, has_caps(), width, duration from .", "select name from . where is_shebang or contains('#') order by name",
+               "select name, bitrate, title, exif_make, height from .", "select name, duration, width, mime, sha1 from . order by duration" >>
+ChooseSpecial == /\ phase = "start" /\ "reject" \in Kinds /\ kind' = "special-files" /\ phase' = "done"
+                 /\ \E i \in 1 .. Len(Specials) : argv' = <<Specials[i]>> /\ label' = "q" \o ToString(i)
+                 /\ expect' = "total" /\ UNCHANGED <<toks, muts>>
 ChooseArgv == /\ phase = "start" /\ "argv" \in Kinds /\ kind' = "argv" /\ phase' = "done"
               /\ \E i \in 1 .. Len(Argvs) : argv' = Argvs[i] /\ label' = (IF Argvs[i][1] = "" THEN "empty-arg" ELSE Argvs[i][1]) \o "/args" \o ToString(Len(Argvs[i]))
               /\ expect' = "total" /\ UNCHANGED <<toks, muts>>
-Next == StartSoup \/ AddTok \/ StartMut \/ Mutate \/ ChooseReject \/ ChooseRuntime \/ ChooseFunc \/ ChooseTotal \/ ChooseArgv
+Next == StartSoup \/ AddTok \/ StartMut \/ Mutate \/ ChooseReject \/ ChooseRuntime \/ ChooseFunc \/ ChooseTotal \/ ChooseSpecial \/ ChooseArgv
 Spec == Init /\ [][Next]_vars
 
 RECURSIVE JoinSp(_)
@@ -137,9 +147,16 @@ Complete == phase = "done" \/ (phase = "soup" /\ toks # <<>>) \/ (phase = "mut" 
 TheArgv == IF phase = "done" THEN argv ELSE <<JoinSp(toks)>>
 W10 == [nodes |-> << [id |-> 1, parent |-> 0, kind |-> "dir", name |-> "d"], [id |-> 2, parent |-> 0, kind |-> "file", name |-> "a.txt", content |-> "xx"],
                      [id |-> 3, parent |-> 1, kind |-> "file", name |-> "b.log", content |-> "line\n"], [id |-> 4, parent |-> 0, kind |-> "file", name |-> "x", content |-> ""] >>]
-Scenario == [prop |-> "C10", world |-> "W10", class |-> kind \o "/" \o label, expect |-> expect,
+W10s == [nodes |-> << [id |-> 1, parent |-> 0, kind |-> "file", name |-> "a.txt", content |-> "x\n"], [id |-> 2, parent |-> 0, kind |-> "fifo", name |-> "p"],
+                      [id |-> 3, parent |-> 0, kind |-> "fifo", name |-> "q.zip"], [id |-> 4, parent |-> 0, kind |-> "socket", name |-> "s"],
+                      [id |-> 5, parent |-> 0, kind |-> "symlink", name |-> "l", target |-> -1, tstyle |-> "rel"], [id |-> 6, parent |-> 0, kind |-> "dir", name |-> "d.zip"],
+                      [id |-> 7, parent |-> 6, kind |-> "fifo", name |-> "pp"],
+                      \* (FIFOs named like media files: readers that are chosen by the extension must not open them either)
+                      [id |-> 8, parent |-> 0, kind |-> "fifo", name |-> "v.mkv"], [id |-> 9, parent |-> 0, kind |-> "fifo", name |-> "i.png"],
+                      [id |-> 10, parent |-> 0, kind |-> "fifo", name |-> "m.mp3"], [id |-> 11, parent |-> 0, kind |-> "fifo", name |-> "g.svg"] >>]
+Scenario == [prop |-> "C10", world |-> (IF kind = "special-files" THEN "W10s" ELSE "W10"), class |-> kind \o "/" \o label, expect |-> expect,
              env |-> [tz |-> "UTC", cwd |-> 0],
              runs |-> << [tag |-> "q", fmt |-> "none", timeout |-> 3, argv |-> TheArgv] >>]
-EmitWorld == (phase = "start") => PrintT(<<"WORLD", ToJson([key |-> "W10", world |-> W10])>>)
+EmitWorld == (phase = "start") => PrintT(<<"WORLD", ToJson([key |-> "W10", world |-> W10])>>) /\ PrintT(<<"WORLD", ToJson([key |-> "W10s", world |-> W10s])>>)
 Emit == Complete => PrintT(<<"REPLAY", ToJson(Scenario)>>)
 =============================================================================
